@@ -27,6 +27,12 @@ CHECKS = {
         text="For every accepted schedule instance: (a) structural scope check of the derived tree, (b) z3 decides that no input satisfying the original's assertions (and on which the original is itself safe) violates any safety obligation of the derived procedure, (c) definedness is preserved (part of the C01 query), (d) the real backend compiles it or raises a documented error.",
         note="Trusted: z3, loopsym obligations generator. Same bounds as C01.",
         design="5/C04"),
+    "C05": dict(
+        category=TV, engine="loopsym",
+        technique="for every accepted replace(block, callee): z3 equivalence query with the call executed from the callee's body (loopsym), z3 check of all call-site obligations (sizes>=1, shapes, callee assertions incl. stride assertions, no aliasing, window bounds), and a second equivalence query after inlining the inserted call back",
+        text="Instances: every block (length<=3) of every corpus procedure (including near-miss targets: transposed, strided, reversed, offset, column access for a stride-1 callee, size-1 fill for a callee asserting n>1, edge index) x every corpus sub-procedure and a pool of x86 instructions. Whenever unification succeeds, z3 decides for all inputs within bounds that the call has exactly the effect of the replaced statements, that the inferred arguments satisfy the callee's signature and assertions, and that inlining gives back an equivalent program.",
+        note="Callees outside the pool are not covered. Same bounds/trusted base as C01.",
+        design="5/C05"),
     "C07": dict(
         category=TV, engine="loopsym",
         technique="snapshot/re-encode equivalence: the z3 encoding and structural fingerprint of every live procedure taken before each (accepted or rejected) scheduling call is compared with a re-encoding after it",
@@ -39,6 +45,12 @@ CHECKS = {
         text="Programs: corpus procedures with par loops as written, parallelize_loop at every loop position / pairs of positions / inside callees via call_eqv, and the same on one-edit source mutants. Whenever the real backend compiles such a program, z3 decides for all inputs within bounds that no two iterations of any parallel loop conflict (write-write, write-read, reduce-reduce, configuration writes included).",
         note="Trip counts <= N. States come from the sequential execution, so nothing unreachable is considered. OpenMP runtime is outside.",
         design="5/C09"),
+    "C10": dict(
+        category=TV, engine="loopsym",
+        technique="C01 equivalence query with symbolic initial configuration on config-using procedures; the ignored set of fields is exactly what the real get_strictest_eqv_proc reports; for call_eqv additionally an origin check against the corpus' construction record",
+        text="Instances: config-reading/writing corpus procedures and callers of config-touching sub-procedures x bind_config, write_config, delete_config, call_eqv (callee variants derived with and without config-touching steps, a same-text twin of another origin, partial_eval/add_assertion variants) and every other scheduling op around config reads/writes. z3 decides for all inputs and all initial configuration states within bounds that buffers are identical and that every field whose final value can differ is in the reported set; an accepted call_eqv whose new callee has another origin is a violation.",
+        note="Same bounds/trusted base as C01; control-typed config fields are boxed like index arguments.",
+        design="5/C10"),
     "C11": dict(
         category=MC, engine="py2smt",
         technique="inductive step by symbolic execution of proc_eqv.py from its AST (py2smt) into z3 bit-vector/Boolean formulas: from an arbitrary invariant-satisfying state, every operation preserves the invariant and matches the per-key closure specification; queries answer exactly the abstract relations; obligations discharged from SMT-LIB2 dumps in parallel",
@@ -76,7 +88,7 @@ NOT_APPLICABLE = [
     ("C18", "Quantifies over CPython hash seeds and process histories; encoding it needs a model of the interpreter's dict/set implementation, not of Exo (DESIGN 6)."),
 ]
 
-PENDING = {p: 'check under construction in this round (design in DESIGN.md section 5); not claimed until its command exists' for p in ['C02','C05','C06','C08','C10','C14','C16']}
+PENDING = {p: 'check under construction in this round (design in DESIGN.md section 5); not claimed until its command exists' for p in ['C02','C06','C08','C14','C16']}
 
 
 def main():
